@@ -59,7 +59,7 @@ var c20Ops = []opSpec{{"stat", fxpStat}, {"open", fxpOpen}, {"readlink", fxpRead
 	// being written in the opposite order of the requests (a server may answer in any order): concurrent WriteAt,
 	// ReadFromWithConcurrency, concurrent ReadAt, WriteTo
 	// WriteTo sizes its work from the STAT reply: that reply mutated, and with sizes at the edges of 64 and 63 bits
-	{"writetostat", fxpStat},
+	{"writetostat", fxpStat}, {"writetofstat", fxpFstat},
 	// three Stat calls at once; the peer takes the first request, leaves the others stuck in the client's Write, answers the
 	// first with the scripted reply and reads no further: every call returns (a bad reply ends the session: the others fail)
 	{"stat-queued", fxpStat},
@@ -68,7 +68,7 @@ var c20Ops = []opSpec{{"stat", fxpStat}, {"open", fxpOpen}, {"readlink", fxpRead
 // c20Compound: operations that are not compared with the model (only crash / hang / follow-up / Close / allocation are judged)
 func c20Compound(op string) bool {
 	switch op {
-	case "writeconc-every", "readfromconc-every", "readconc-every", "writeto-every", "writetostat", "stat-queued":
+	case "writeconc-every", "readfromconc-every", "readconc-every", "writeto-every", "writetostat", "writetofstat", "stat-queued":
 		return true
 	case "readconc", "writeto", "remove", "removefirst", "mkdirall", "mkdirallmk", "removeall", "realpath", "mkdir", "symlink", "chmod",
 		"truncatefile", "posixrename", "lstat", "fstat", "create", "glob":
@@ -226,8 +226,11 @@ func runC20Case(op string, reply []byte) string {
 		}
 	}()
 	opts := []sftp.ClientOption{}
-	if op == "readconc" || op == "writeto" || op == "writetostat" || strings.HasSuffix(op, "-every") {
+	if op == "readconc" || op == "writeto" || op == "writetostat" || op == "writetofstat" || strings.HasSuffix(op, "-every") {
 		opts = append(opts, sftp.MaxPacketUnchecked(8), sftp.MaxConcurrentRequestsPerFile(3), sftp.UseConcurrentWrites(true))
+	}
+	if op == "writetofstat" { // the size probe of WriteTo goes through the handle
+		opts = append(opts, sftp.UseFstat(true))
 	}
 	cl, err := sftp.NewClientPipe(c1, c1, opts...)
 	if err != nil {
@@ -358,7 +361,7 @@ func runC20Case(op string, reply []byte) string {
 			b := make([]byte, 24)
 			n, err := f.ReadAt(b, 0)
 			res = fmt.Sprintf("n=%x;err=%s", n, cliErrKind(err))
-		case "writeto", "writeto-every", "writetostat":
+		case "writeto", "writeto-every", "writetostat", "writetofstat":
 			f, err := cl.Open("/x")
 			if err != nil {
 				res = "err:open"
@@ -481,7 +484,7 @@ func runC20(c *Ctx) {
 		}(),
 	}
 	own := map[string]string{"stat": "attrs", "open": "handle", "readlink": "name1", "readdir": "names", "rename": "statusok", "read8": "data",
-		"statvfs": "statvfs", "readconc": "data", "writeto": "data", "writeconc-every": "statusok", "readfromconc-every": "statusok", "readconc-every": "data", "writeto-every": "data", "writetostat": "attrs", "stat-queued": "attrs",
+		"statvfs": "statvfs", "readconc": "data", "writeto": "data", "writeconc-every": "statusok", "readfromconc-every": "statusok", "readconc-every": "data", "writeto-every": "data", "writetostat": "attrs", "writetofstat": "attrs", "stat-queued": "attrs",
 		"remove": "status", "removefirst": "status", "mkdirall": "attrs", "mkdirallmk": "statusok", "removeall": "attrs", "realpath": "name1", "mkdir": "statusok",
 		"symlink": "statusok", "chmod": "statusok", "truncatefile": "statusok", "posixrename": "statusok", "lstat": "attrs", "fstat": "attrs", "create": "handle", "glob": "handle"}
 	child, err := startChild("c20", 6000000)
@@ -559,7 +562,7 @@ func runC20(c *Ctx) {
 		for k, v := range valid {
 			ask(o.name, v, k == own[o.name])
 		}
-		if o.name == "writetostat" {
+		if o.name == "writetostat" || o.name == "writetofstat" {
 			for _, size := range []uint64{0, 1, 7, 8, 9, 1 << 32, 1<<63 - 1, 1 << 63, 1<<64 - 9, 1<<64 - 8, 1<<64 - 7, 1<<64 - 2, 1<<64 - 1} {
 				ask(o.name, pkt(fxpAttrs, 0).u32(0xf).u64(size).u32(1).u32(2).u32(0o100644).u32(3).u32(4).b, false)
 			}
